@@ -357,11 +357,11 @@ fn run(args: &Args, rep: &mut Report) {
         Err(m) => Verdict { result: Err(m), nontrivial: None },
     };
     rep.add("valid-descriptions", false, "0..6 valid words, random order / ASCII case / ASCII+Unicode white space",
-        prop_par("valid-descriptions", args.seed, tier.pick(60_000, 1_000_000), arb_description, sbody, |s| json!(s)));
+        prop_par("valid-descriptions", args.seed, tier.pick(60_000, 10_000_000), arb_description, sbody, |s| json!(s)));
     rep.add("single-edit-mutations", false, "one insert/delete/replace at a character boundary of a valid description",
-        prop_par("single-edit-mutations", args.seed, tier.pick(100_000, 2_000_000), arb_mutated, sbody, |s| json!(s)));
+        prop_par("single-edit-mutations", args.seed, tier.pick(100_000, 8_000_000), arb_mutated, sbody, |s| json!(s)));
     rep.add("arbitrary-unicode", false, "arbitrary Unicode strings (incl. control characters)",
-        prop_par("arbitrary-unicode", args.seed, tier.pick(30_000, 500_000), || prop_oneof![".{0,12}", "[#0-9a-fA-F +\\-é\u{3000}]{0,10}", "\\PC{0,8}"], sbody, |s| json!(s)));
+        prop_par("arbitrary-unicode", args.seed, tier.pick(30_000, 5_000_000), || prop_oneof![".{0,12}", "[#0-9a-fA-F +\\-é\u{3000}]{0,10}", "\\PC{0,8}"], sbody, |s| json!(s)));
     rep.add("print-parse-roundtrip", false, "expressible styles (no underline colour, no bright palette colours, 7 attributes) printed in 3 spellings",
         prop_par("print-parse-roundtrip", args.seed, tier.pick(60_000, 1_000_000), arb_expressible,
             |(m, v), _| match check_roundtrip(m, *v) {
